@@ -32,6 +32,13 @@ def base_model(delay='none', names=None, extra=None):
         attrs['delay'] = 3 * DT
     elif delay == 'gamma':
         attrs.update(delay=1.0, spread=0.5)
+    if delay == 'matrix_discrete':
+        # the same delay given through a population Connectivity (matrix edge)
+        from pyrates.frontend.template.population import PopulationTemplate, Connectivity
+        pa = PopulationTemplate('a', NodeTemplate('a', operators=[so]), n=2, params={'so/x': [0.6, 0.4]})
+        pb = PopulationTemplate('b', NodeTemplate('b', operators=[to]), n=2)
+        return CircuitTemplate('net', populations={'a': pa, 'b': pb},
+                               connections=[Connectivity('a/so/x', 'b/to/u', np.array([[2.0, 0.0], [0.5, 1.0]]), delays=3 * DT)])
     return CircuitTemplate('net', nodes={'a': NodeTemplate('a', operators=[so]), 'b': NodeTemplate('b', operators=[to])},
                            edges=[('a/so/x', 'b/to/u', None, attrs)])
 
@@ -41,10 +48,12 @@ def matrix_cases(tier):
     for backend in SOLVERS:
         for solver in ALL_SOLVERS:
             for vec in (False, True):
-                for delay in ('none', 'discrete', 'gamma', 'past'):
+                for delay in ('none', 'discrete', 'gamma', 'past', 'matrix_discrete'):
+                    if delay == 'matrix_discrete' and not vec:
+                        continue
                     out.append({'kind': 'run', 'backend': backend, 'solver': solver, 'vectorize': vec, 'delay': delay})
         for vec in (False, True):
-            for delay in ('none', 'discrete', 'past'):
+            for delay in ('none', 'discrete', 'past') + (('matrix_discrete',) if vec else ()):
                 out.append({'kind': 'grf', 'backend': backend, 'solver': 'euler', 'vectorize': vec, 'delay': delay})
             for sparse in (False, True):
                 out.append({'kind': 'jac', 'backend': backend, 'solver': 'euler', 'vectorize': vec, 'delay': 'none', 'sparse': sparse})
@@ -110,7 +119,7 @@ def expected_unsupported(c):
         reasons.append('solver')
     if c['backend'] == 'fortran' and c['vectorize']:
         reasons.append('fortran_vectorize')
-    if c['delay'] == 'discrete' and c['solver'] in ('euler', 'heun') and not EDGE_DELAY_BUFFER[c['backend']]:
+    if c['delay'] in ('discrete', 'matrix_discrete') and c['solver'] in ('euler', 'heun') and not EDGE_DELAY_BUFFER[c['backend']]:
         reasons.append('edge_delay_buffer')
     if c['kind'] == 'jac' and c.get('sparse') and not SPARSE_JAC[c['backend']]:
         reasons.append('sparse_jacobian')
